@@ -35,12 +35,14 @@ def Cmtd (s : PSys) (t k : Nat) : Prop := k = 0 ∨ ∃ p ∈ s.cmts, k ≤ p.2 
 def CmtPre (s : PSys) (t k : Nat) (l : List LEntry) : Prop :=
   k = 0 ∨ ∃ p ∈ s.cmts, k ≤ p.2 ∧ p.1 ≤ t ∧ l.take k = (s.llog p.1).take k
 
-structure InvB (c0 : Cfg) (s : PSys) : Prop where
+structure InvB (s : PSys) : Prop where
   ll : ∀ t, ∃ r, s.llog t = s.elog t ++ r ∧ (∀ e ∈ r, e.term = t) ∧ (∀ e ∈ s.elog t, e.term < t)
-  eq : ∀ p ∈ s.elected, ∃ q, c0.isQuorum q = true ∧ ∀ v ∈ q, ∃ gh, ((⟨p.1, v, p.2⟩ : Grant), gh) ∈ s.rgv ∧
+  eq : ∀ p ∈ s.elected, ∃ cfg q, (p.1, cfg) ∈ s.ecfgs ∧ cfg.isQuorum q = true ∧ ∀ v ∈ q, ∃ gh, ((⟨p.1, v, p.2⟩ : Grant), gh) ∈ s.rgv ∧
           gh.early = true ∧ upToDate (lastTerm (s.elog p.1)) (s.elog p.1).length gh.vlog = true
   gto : ∀ i t v c gh, OMsg.grant t v c gh ∈ (s.nodes i).outbox → upToDate gh.clt gh.cli gh.vlog = true
   gt : ∀ p ∈ s.rgv, upToDate p.2.clt p.2.cli p.2.vlog = true
+  /-- a configuration is recorded for a term only when somebody was elected for it -/
+  ee : ∀ ec ∈ s.ecfgs, Elected s ec.1
 
 /-- acknowledgement truth and retention of acknowledged prefixes -/
 structure InvC1 (s : PSys) : Prop where
@@ -66,9 +68,15 @@ structure InvC2 (s : PSys) : Prop where
 
 /-- quorum evidence of every leader commit, commit soundness of every node and of every carrier of a
 commit index -/
-structure InvC3 (c0 : Cfg) (s : PSys) : Prop where
+structure InvC3 (s : PSys) : Prop where
   cq : ∀ p ∈ s.cmts, 0 < p.2 ∧ p.2 ≤ (s.llog p.1).length ∧ termAt (s.llog p.1) p.2 = p.1 ∧ Elected s p.1 ∧
-          ∃ q, c0.isQuorum q = true ∧ ∀ v ∈ q, ∃ a ∈ s.acks, a.term = p.1 ∧ a.frm = v ∧ p.2 ≤ a.idx
+          ∃ cfg q, (p, cfg) ∈ s.ccfgs ∧ cfg.isQuorum q = true ∧ ∀ v ∈ q, ∃ a ∈ s.acks, a.term = p.1 ∧ a.frm = v ∧ p.2 ≤ a.idx
+  /-- the configuration ghosts of the leader commits are in step with `cmts` -/
+  cc : s.ccfgs.map (·.1) = s.cmts
+  /-- configurations of a leader commit and of a later-term election: their quorums meet, or the later
+  leader was demonstrably elected with the committed prefix (guards of `win` / `commitLeader`) -/
+  gd : ∀ pc ∈ s.ccfgs, ∀ ec ∈ s.ecfgs, pc.1.1 < ec.1 →
+          adjOk pc.2 ec.2 = true ∨ (s.elog ec.1).take pc.1.2 = (s.llog pc.1.1).take pc.1.2
   cm : ∀ i, CmtPre s (s.nodes i).term (s.nodes i).commit (s.nodes i).log
   cmi : ∀ i, ∀ im ∈ (s.nodes i).pending, CmtPre s im.term im.commit im.log
   cmd : ∀ i, CmtPre s (s.nodes i).dterm (s.nodes i).dcommit (s.nodes i).dlog
@@ -84,10 +92,10 @@ structure InvC3 (c0 : Cfg) (s : PSys) : Prop where
 def InvLC (s : PSys) : Prop :=
   ∀ p ∈ s.cmts, ∀ t, p.1 < t → Elected s t → (s.elog t).take p.2 = (s.llog p.1).take p.2
 
-structure InvC (c0 : Cfg) (s : PSys) : Prop where
+structure InvC (s : PSys) : Prop where
   c1 : InvC1 s
   c2 : InvC2 s
-  c3 : InvC3 c0 s
+  c3 : InvC3 s
   lc : InvLC s
 
 /-! ### list lemmas -/
@@ -380,18 +388,13 @@ theorem addReleased_llog (s : PSys) (m : OMsg) : (addReleased s m).llog = s.llog
   cases m <;> simp [addReleased]
 
 /-- nobody was elected before for the term a candidate wins -/
-theorem win_fresh (c0 : Cfg) (hne : c0.incoming ≠ [] ∨ c0.outgoing ≠ []) (s : PSys) (hV : InvV c0 (vsys s))
-    (hL : InvL s) (i : Nat) (q : List Nat) (hrole : (s.nodes i).role = 1)
-    (hq : c0.isQuorum q = true) (hall : ∀ x ∈ q, (⟨(s.nodes i).term, x, i⟩ : Grant) ∈ s.grants) :
+theorem win_fresh (s : PSys) (hV : InvV (vsys s))
+    (hL : InvL s) (i : Nat) (cfg : Cfg) (q : List Nat) (hrole : (s.nodes i).role = 1)
+    (hq : cfg.isQuorum q = true) (hall : ∀ x ∈ q, (⟨(s.nodes i).term, x, i⟩ : Grant) ∈ s.grants)
+    (hadj : ∀ p ∈ s.ecfgs, p.1 = (s.nodes i).term → adjOk cfg p.2 = true) :
     ¬ Elected s (s.nodes i).term := by
   rintro ⟨j, hj⟩
-  obtain ⟨_, qj, hqj, hgj⟩ := hV.el _ hj
-  obtain ⟨v, hv1, hv2⟩ := Cfg.quorums_intersect c0 hne q qj hq hqj
-  have g1 := hall v hv1
-  have g2 := hgj v hv2
-  have : i = j := hV.gc v ⟨_, v, i⟩ ⟨_, v, j⟩ (Or.inr ⟨g1, rfl⟩) (Or.inr ⟨g2, rfl⟩) rfl
-  subst this
-  exact hL.cand i hrole hj
+  exact win_fresh_elected s hV hL i cfg q hrole hq hall hadj j hj
 
 /-- the guard of `win`, unpacked -/
 theorem win_guard {s s' : PSys} {i : Nat} {cfg : Cfg} {q : List Nat} (h : applyEvent s (.win i cfg q) = .ok s') :
@@ -402,24 +405,71 @@ theorem win_guard {s s' : PSys} {i : Nat} {cfg : Cfg} {q : List Nat} (h : applyE
     s' = { s with nodes := upd s.nodes i { s.nodes i with role := 2 },
                   llog := updT s.llog (s.nodes i).term (s.nodes i).log,
                   elog := updT s.elog (s.nodes i).term (s.nodes i).log,
-                  elected := ((s.nodes i).term, i) :: s.elected } := by
+                  elected := ((s.nodes i).term, i) :: s.elected,
+                  ecfgs := ((s.nodes i).term, cfg) :: s.ecfgs } ∧
+    adjOk cfg cfg = true ∧
+    (∀ p ∈ s.ecfgs, p.1 = (s.nodes i).term → adjOk cfg p.2 = true) ∧
+    (∀ p ∈ s.ccfgs, p.1.1 < (s.nodes i).term → adjOk p.2 cfg = true ∨
+        (s.nodes i).log.take p.1.2 = (s.llog p.1.1).take p.1.2) := by
   simp only [applyEvent, ok] at h
   split at h
   · rename_i hg
     injection h with h
-    refine ⟨hg.2.1, hg.2.2.2.1, ?_, ?_, h.symm⟩
+    refine ⟨hg.2.1, hg.2.2.2.1, ?_, ?_, h.symm, hg.2.2.2.2.2.2.2.1, ?_, ?_⟩
     · have := hg.2.2.2.2.2.1
       simp only [List.all_eq_true, List.contains_iff_mem] at this
       exact this
-    · have := hg.2.2.2.2.2.2
+    · have := hg.2.2.2.2.2.2.1
       simp only [List.all_eq_true, List.any_eq_true, decide_eq_true_eq] at this
       intro x hx
       obtain ⟨p, hp, h1⟩ := this x hx
       exact ⟨p, hp, h1.1, h1.2.1, h1.2.2.1, h1.2.2.2⟩
+    · have := hg.2.2.2.2.2.2.2.2.1
+      simp only [List.all_eq_true, Bool.or_eq_true, decide_eq_true_eq] at this
+      intro p hp hpt
+      rcases this p hp with h1 | h1
+      · exact absurd hpt h1
+      · exact h1
+    · have := hg.2.2.2.2.2.2.2.2.2
+      simp only [List.all_eq_true, Bool.or_eq_true, decide_eq_true_eq] at this
+      intro p hp hlt
+      rcases this p hp with h1 | h1 | h1
+      · omega
+      · exact Or.inl h1
+      · exact Or.inr h1
   · cases h
 
-theorem grow_step (c0 : Cfg) (hne : c0.incoming ≠ [] ∨ c0.outgoing ≠ []) (s s' : PSys) (e : Event)
-    (hc : e.cfgOk c0) (hV : InvV c0 (vsys s)) (hL : InvL s) (h : applyEvent s e = .ok s') : Grow s s' := by
+/-- the guard of `commitLeader`, unpacked -/
+theorem commitLeader_guard {s s' : PSys} {i c : Nat} {cfg : Cfg} {q : List Nat}
+    (h : applyEvent s (.commitLeader i c cfg q) = .ok s') :
+    (s.nodes i).up = true ∧ (s.nodes i).role = 2 ∧ (s.nodes i).commit < c ∧ c ≤ (s.nodes i).log.length ∧
+    termAt (s.nodes i).log c = (s.nodes i).term ∧ cfg.isQuorum q = true ∧
+    (∀ v ∈ q, ∃ a ∈ s.acks, a.term = (s.nodes i).term ∧ a.frm = v ∧ c ≤ a.idx) ∧
+    adjOk cfg cfg = true ∧
+    (∀ p ∈ s.ecfgs, (s.nodes i).term < p.1 → adjOk cfg p.2 = true ∨
+        (s.elog p.1).take c = (s.nodes i).log.take c) ∧
+    s' = { s with nodes := upd s.nodes i { s.nodes i with commit := c },
+                  cmts := ((s.nodes i).term, c) :: s.cmts,
+                  ccfgs := (((s.nodes i).term, c), cfg) :: s.ccfgs } := by
+  simp only [applyEvent, ok] at h
+  split at h
+  · rename_i hg
+    injection h with h
+    refine ⟨hg.1, hg.2.1, hg.2.2.1, hg.2.2.2.1, hg.2.2.2.2.1, hg.2.2.2.2.2.1, ?_, hg.2.2.2.2.2.2.2.1, ?_, h.symm⟩
+    · have := hg.2.2.2.2.2.2.1
+      simp only [List.all_eq_true, List.any_eq_true, decide_eq_true_eq] at this
+      exact this
+    · have := hg.2.2.2.2.2.2.2.2
+      simp only [List.all_eq_true, Bool.or_eq_true, decide_eq_true_eq] at this
+      intro p hp hlt
+      rcases this p hp with h1 | h1 | h1
+      · omega
+      · exact Or.inl h1
+      · exact Or.inr h1
+  · cases h
+
+theorem grow_step (s s' : PSys) (e : Event)
+    (hV : InvV (vsys s)) (hL : InvL s) (h : applyEvent s e = .ok s') : Grow s s' := by
   cases e with
   | read r =>
     simp only [applyEvent, ok] at h
@@ -427,10 +477,8 @@ theorem grow_step (c0 : Cfg) (hne : c0.incoming ≠ [] ∨ c0.outgoing ≠ []) (
     · cases h; exact Grow.refl' rfl rfl
     · cases h
   | win i cfg q =>
-    simp only [Event.cfgOk] at hc
-    subst hc
-    obtain ⟨hrole, hq, hall, _, hs'⟩ := win_guard h
-    have hf := win_fresh cfg hne s hV hL i q hrole hq hall
+    obtain ⟨hrole, hq, hall, _, hs', _, hadj, _⟩ := win_guard h
+    have hf := win_fresh s hV hL i cfg q hrole hq hall hadj
     subst hs'
     constructor
     · rintro t ⟨j, hj⟩; exact ⟨j, List.mem_cons_of_mem _ hj⟩
@@ -504,7 +552,7 @@ theorem grow_step (c0 : Cfg) (hne : c0.incoming ≠ [] ∨ c0.outgoing ≠ []) (
     · cases h
 
 /-- the log of every leader of a term not before a leader commit holds the committed prefix -/
-theorem cmt_prefix {c0 : Cfg} {s : PSys} (hB : InvB c0 s) (h3 : InvC3 c0 s) (hlc : InvLC s)
+theorem cmt_prefix {s : PSys} (hB : InvB s) (h3 : InvC3 s) (hlc : InvLC s)
     {p : Nat × Nat} (hp : p ∈ s.cmts) {t : Nat} (ht : p.1 ≤ t) (hel : Elected s t) :
     (s.llog t).take p.2 = (s.llog p.1).take p.2 := by
   by_cases he : p.1 = t
@@ -515,7 +563,7 @@ theorem cmt_prefix {c0 : Cfg} {s : PSys} (hB : InvB c0 s) (h3 : InvC3 c0 s) (hlc
     rw [hr, List.take_append_of_le_length hlen]; exact h1
 
 /-- ... and any shorter prefix of it -/
-theorem cmt_prefix_le {c0 : Cfg} {s : PSys} (hB : InvB c0 s) (h3 : InvC3 c0 s) (hlc : InvLC s)
+theorem cmt_prefix_le {s : PSys} (hB : InvB s) (h3 : InvC3 s) (hlc : InvLC s)
     {p : Nat × Nat} (hp : p ∈ s.cmts) {t : Nat} (ht : p.1 ≤ t) (hel : Elected s t) {k : Nat} (hk : k ≤ p.2) :
     (s.llog t).take k = (s.llog p.1).take k :=
   take_of_take_eq (cmt_prefix hB h3 hlc hp ht hel) hk
